@@ -1124,6 +1124,7 @@ func (ls *LState) callR(nargs, nret, rbase int) {
 	}
 	lv := ls.reg.Get(base)
 	fn, meta := ls.metaCall(lv)
+	caller := ls.currentFrame
 	ls.pushCallFrame(callFrame{
 		Fn:         fn,
 		Pc:         0,
@@ -1160,6 +1161,9 @@ func (ls *LState) callR(nargs, nret, rbase int) {
 		ls.mainLoop(ls, ls.currentFrame)
 	}
 	ls.nccalls--
+	// back in the activation the call was made from (the frame below on the call stack, except on a thread
+	// whose body frame is waiting for its first resume)
+	ls.currentFrame = caller
 	if nret != MultRet {
 		ls.reg.SetTop(rbase + nret)
 	}
@@ -1949,6 +1953,9 @@ func (ls *LState) Call(nargs, nret int) {
 func (ls *LState) PCall(nargs, nret int, errfunc *LFunction) (err error) {
 	err = nil
 	sp := ls.stack.Sp()
+	// the activation the call is made from: not necessarily stack.Last() (a thread made by coroutine.create
+	// holds the frame of its body before anybody has resumed it)
+	caller := ls.currentFrame
 	base := ls.reg.Top() - nargs - 1
 	oldpanic := ls.Panic
 	nccalls := ls.nccalls
@@ -1991,7 +1998,7 @@ func (ls *LState) PCall(nargs, nret int, errfunc *LFunction) (err error) {
 						}
 						ls.nccalls = nccalls
 						ls.stack.SetSp(sp)
-						ls.currentFrame = ls.stack.Last()
+						ls.currentFrame = caller
 						ls.closeUpvalues(base)
 						ls.reg.SetTop(base)
 					}
@@ -2006,16 +2013,14 @@ func (ls *LState) PCall(nargs, nret int, errfunc *LFunction) (err error) {
 				err.(*ApiError).StackTrace = ls.stackTrace(0)
 			}
 			ls.stack.SetSp(sp)
-			ls.currentFrame = ls.stack.Last()
+			ls.currentFrame = caller
 			// the unwound frames owned the registers from base upwards: close exactly the
 			// upvalues that point there (and none of the frames that keep running)
 			ls.closeUpvalues(base)
 			ls.reg.SetTop(base)
 		}
 		ls.stack.SetSp(sp)
-		if sp == 0 {
-			ls.currentFrame = nil
-		}
+		ls.currentFrame = caller
 	}()
 
 	ls.Call(nargs, nret)
